@@ -25,6 +25,7 @@ ADV = ['\\ud800', '\\udfff x', 'mood=\\ud83d\\ude00', '\\U0000d800', '\\U0011000
        '', ' ', '"', "'", '\\', '\\x00', '\\x', '\\u12', '%', '%%', '/', '//', '..', '../..', '-', '--', ':', '::', 'a:b:c:d:e', ',', ',,', 'type=', 'type=bind', 'type=bind,', 'type==',
        'source=', '=', '==', 'a=', '=b', '@', '@@', '.', 'x.volume', '.volume', 'x.network:', ':x', '\x7f', 'é', ' ', '𝄞', 'a' * 300, '0', '-1', '99999999999999999999', 'keep-id',
        'keep-id:uid=', 'auto', 'manual', 'true', 'yes', 'image', 'notify', 'oneshot', 'healthy', 'yaml', 'unit', 'file', '-/dev/null', '-', '"unterminated', "'unterminated", 'a\\', '1-2/tcp',
+       'type', 'type,destination=/x', 'destination=/x,type', 'type bind,source=/a', 'type,type=bind', 'source', 'src,dst', 'ip', 'uid', 'keep-id:', 'keep-id:uid', ':ro', 'a::',
        'a\x00b', '\x00', 'k=v\x00', 'x\x01y', '\x1b[0m', '\ufeffbom', '\ufffe',   # literal control bytes (no backslash in the value)
        'host', 'none', 'x.container', 'x.pod', 'x.image', 'x.build', '.pod', 'type=image,src=x.image', 'type=volume,source=,dst=/x', 'type=bind,"a,b"', 'type=glob,src=/a*', 'a b', '\t']
 
